@@ -98,9 +98,7 @@ func (c *Ctx) c08Text(text string, family string) {
 			}
 			bothInSet := false
 			if d < len(c08DocsText) {
-				if m := ref.SearchParsed(pr, c08Docs[d]); !m.Unspec && ls.Err != nil && le.Err != nil && m.Fault&ls.Cats != 0 && m.Fault&le.Cats != 0 {
-					bothInSet = true // several faults present: either may be reported
-				}
+				bothInSet = MultiFaultOK(ref.SearchParsed(pr, c08Docs[d]), ls, le)
 			} else if ls.Err != nil && le.Err != nil {
 				bothInSet = true // unmodelled document: only the contract is checked
 			}
